@@ -1,5 +1,5 @@
 """Claims published in MANIFEST.json (kept here so the manifest can be regenerated and always validates)."""
-SOURCE_COMMITS = []
+SOURCE_COMMITS = ['4c1e51521 fix: BCSR row_norm2 square root after block loop', 'd83cc83e0 fix: dunavant:7 centroid weight', '246ad8691 fix: dunavant:18 coordinate typo']
 NOTES = ('Contract-based deductive verification with CBMC 6.11: the functions named per property are cut mechanically from /repo on every run, '
          'brought to C by a fixed rewrite table (xc/extract.py), annotated with the contracts in contracts/<id>/*.spec and checked by '
          'goto-instrument --dfcc + cbmc. exit 0 = every obligation discharged; exit 1 = VIOLATION (failed obligation; counterexample replayed '
@@ -18,6 +18,12 @@ CHECKS = {
  'C06': dict(level='proof', technique=T_PROOF,
    text='Unbounded proofs that the unit-filter kernels (scalar and blocked, both ignore-NaN arms) and the filter_mat loop regions (CSR and BCSR) set exactly the constrained entries (bit-exact copies / unit rows), skip NaN components when asked, and leave every other entry untouched, for all index sets, sizes and sparsity patterns.',
    note='Assumes: filter indices pairwise distinct and in range, valid CSR/BCSR layout (row-of-entry ghost), block sizes {2,3}; code around the cut regions (early-outs, accessors) is trusted. NOT covered: slip-filter normal component values, mean filter, filter chains/sequences, Global::Filter.'),
+ 'C07': dict(level='proof', technique='CBMC code contracts on the convergence-control methods cut from IterativeSolver (loop-free, all double inputs symbolic), cvc5 back end; callee contracts used modularly',
+   text='Control slice: for all double defect values (incl. NaN/inf) and all limit settings, is_converged/is_diverged/_analyse_defect/_update_defect/_set_initial_defect(tail)/status_success return exactly the status the configured tolerances, divergence bounds, iteration limits and stagnation settings prescribe for the defect norms they are given, and update iteration/stagnation counters and stored defects consistently.',
+   note='Decides status truthfulness GIVEN that _def_cur is the norm the solver computed. NOT covered (outside this technique): that the Krylov recurrences make that norm the true residual, convergence to the reference solution, rhs-unmodified, apply-ignores-start-vector; _set_new_defect (vector norm call), plotting/statistics lines are dropped from the cuts.'),
+ 'C14': dict(level='proof', technique='closed IEEE-754 evaluation by CBMC of the table-driven fill() functions cut from /repo (no symbolic input; finite, exhaustive), one named obligation per rule and point count',
+   text='For dunavant:2..20, shunn-ham:2..6, lauffer-degree-2, hammer-stroud-degree-3 (dims 2,3) and the refine: prefix on all five shapes: the rule writes exactly its advertised number of points, weights sum to the reference volume and every monomial up to the nominal degree is integrated within 5e-13.',
+   note='Tolerance 5e-13 absolute and the nominal degrees are part of the specification. Rule accessors rewritten to arrays. NOT covered: drivers computing points with sqrt/cos (Gauss-Legendre/Lobatto, Hammer-Stroud D2/D5: CBMC does not constant-fold libm), silvester, trapezoidal/barycentre, tensor-product composition, DynamicFactory name parsing.'),
  'C13': dict(level='proof', technique=T_PROOF,
    text='Kernel-level slice only: unbounded proofs that Mirror gather/scatter kernels stay in bounds, write only their target range, add alpha*buf to each mirrored entry exactly once (distinct mirror indices) and leave non-mirrored entries unchanged.',
    note='Decides only the per-patch gather/scatter step. NOT covered (outside this technique): Gate/Muxer/Splitter, MPI communication, process-count and message-schedule quantifiers.'),
